@@ -269,7 +269,15 @@ type WorldCase struct {
 	Desc     string      `json:"scenario_description,omitempty"`
 	Quorum   string      `json:"price_quorum"`
 	Items    [3]ItemJSON `json:"validator_items"`
-	Plans    [][]SubJSON `json:"validator_plans,omitempty"` // kind resub: per validator the submissions (block, status, price)
+	Plans    [][]SubJSON `json:"validator_plans,omitempty"`         // kind resub: per validator the submissions (block, status, price)
+	PerSig   [][]SigJSON `json:"validator_signal_prices,omitempty"` // kind rerank: per validator what it submits for each signal
+}
+
+// SigJSON is one signal price of a rerank-layer submission.
+type SigJSON struct {
+	Signal string `json:"signal"`
+	Status string `json:"status"`
+	Price  uint64 `json:"price"`
 }
 
 // SubJSON is one real MsgSubmitSignalPrices of a plan.
@@ -326,12 +334,23 @@ func signalPriceOf(it item, sig string) feedstypes.SignalPrice {
 // checkFeeds judges both feeds on ctx (after an EndBlocker ran at time now) given the entries the three
 // validators hold (Status stAbsent = none).
 func checkFeeds(w *engine.World, b *base, ctx sdk.Context, events sdk.Events, halt string, held [3]Entry, now int64, step int) []feedCheck {
+	return checkFeedList(w, b, ctx, events, halt, []feedSpec{{feed1, interval1}, {feed2, interval2}},
+		func(string) [3]Entry { return held }, now, step)
+}
+
+// feedSpec is one current feed (signal id, interval).
+type feedSpec struct {
+	sig string
+	iv  int64
+}
+
+// checkFeedList judges the given current feeds; heldOf returns, for a signal id, the entries the three validators
+// hold FOR THAT SIGNAL (the reference is keyed by signal id, never by position).
+func checkFeedList(w *engine.World, b *base, ctx sdk.Context, events sdk.Events, halt string, specs []feedSpec, heldOf func(sig string) [3]Entry, now int64, step int) []feedCheck {
 	var out []feedCheck
 	k := w.App.FeedsKeeper
-	for _, f := range []struct {
-		sig string
-		iv  int64
-	}{{feed1, interval1}, {feed2, interval2}} {
+	for _, f := range specs {
+		held := heldOf(f.sig)
 		var counted, all []Entry
 		for v := 0; v < 3; v++ {
 			all = append(all, held[v])
@@ -500,7 +519,13 @@ func evalWorldCase(w *engine.World, c WorldCase) (outs []string, viols []engine.
 	b := buildBase(w, scenarioByName(c.Scenario), c.Quorum)
 	var items [3]item
 	var fcs []feedCheck
-	if c.Kind == kindResub {
+	if c.Kind == kindRerank {
+		var sv [3]sigVals
+		for i := range sv {
+			sv[i] = sigValsFromJSON(c.PerSig[i])
+		}
+		fcs = evalRerank(w, b, sv)
+	} else if c.Kind == kindResub {
 		var pl [3]plan
 		for i := range pl {
 			pl[i] = planFromJSON(c.Plans[i])
@@ -511,7 +536,7 @@ func evalWorldCase(w *engine.World, c WorldCase) (outs []string, viols []engine.
 			items[i] = itemFromJSON(c.Items[i])
 		}
 	}
-	if c.Kind == kindResub {
+	if c.Kind == kindResub || c.Kind == kindRerank {
 		// evaluated above
 	} else if c.Kind == "hist" {
 		fcs = evalHist(w, b, items)
@@ -552,6 +577,9 @@ func runWorld(r *engine.Run, tally *engine.Tally, quick bool, deadline time.Time
 		if kind == kindResub {
 			n = len(plans)
 		}
+		if kind == kindRerank {
+			n = len(rerankAlphabet)
+		}
 		od := engine.Odometer{Sizes: []int{n, n, n}}
 		cs := make([]*counters, workers)
 		digs := make([][]int, workers)
@@ -564,13 +592,17 @@ func runWorld(r *engine.Run, tally *engine.Tally, quick bool, deadline time.Time
 			var items [3]item
 			var pl [3]plan
 			var fcs []feedCheck
-			if kind == kindResub {
+			var sv [3]sigVals
+			if kind == kindRerank {
+				sv = [3]sigVals{rerankAlphabet[digs[wk][0]], rerankAlphabet[digs[wk][1]], rerankAlphabet[digs[wk][2]]}
+				fcs = evalRerank(worlds[wk], bases[wk], sv)
+			} else if kind == kindResub {
 				pl = [3]plan{plans[digs[wk][0]], plans[digs[wk][1]], plans[digs[wk][2]]}
 				fcs = evalPlans(worlds[wk], bases[wk], pl)
 			} else {
 				items = [3]item{its[digs[wk][0]], its[digs[wk][1]], its[digs[wk][2]]}
 			}
-			if kind == kindResub {
+			if kind == kindResub || kind == kindRerank {
 				// evaluated above
 			} else if kind == "hist" {
 				fcs = evalHist(worlds[wk], bases[wk], items)
@@ -619,7 +651,9 @@ func runWorld(r *engine.Run, tally *engine.Tally, quick bool, deadline time.Time
 					fc := fc
 					c.violate(idx, fc.FP, func() (any, []string, string) {
 						wc := WorldCase{Kind: kind, Scenario: sc.Name, Desc: sc.Desc, Quorum: pr.Quorum}
-						if kind == kindResub {
+						if kind == kindRerank {
+							wc.PerSig = [][]SigJSON{sv[0].json(), sv[1].json(), sv[2].json()}
+						} else if kind == kindResub {
 							wc.Plans = [][]SubJSON{planJSON(pl[0]), planJSON(pl[1]), planJSON(pl[2])}
 						} else {
 							wc.Items = [3]ItemJSON{itemJSON(items[0]), itemJSON(items[1]), itemJSON(items[2])}
@@ -632,7 +666,10 @@ func runWorld(r *engine.Run, tally *engine.Tally, quick bool, deadline time.Time
 				c.nontrivial++
 			}
 			if idx == od.Total()/2 {
-				if kind == kindResub {
+				if kind == kindRerank {
+					tally.Sample(12, map[string]any{"layer": kind, "scenario": sc.Name, "quorum": pr.Quorum,
+						"signal_prices": []string{sv[0].String(), sv[1].String(), sv[2].String()}})
+				} else if kind == kindResub {
 					tally.Sample(12, map[string]any{"layer": kind, "scenario": sc.Name, "quorum": pr.Quorum,
 						"plans": []string{pl[0].String(), pl[1].String(), pl[2].String()}})
 				} else {
@@ -665,6 +702,11 @@ func runWorld(r *engine.Run, tally *engine.Tally, quick bool, deadline time.Time
 	}
 	for _, pr := range resubPairs(quick) {
 		if !run(kindResub, pr, nil) {
+			return
+		}
+	}
+	for _, pr := range rerankPairs(quick) {
+		if !run(kindRerank, pr, nil) {
 			return
 		}
 	}
@@ -841,6 +883,178 @@ func evalPlans(w *engine.World, b *base, plans [3]plan) []feedCheck {
 				engine.Fatal3("C06 resub: BeginBlocker halted: %s", h)
 			}
 		}
+	}
+	return out
+}
+
+// ---- rerank layer: per-signal distinct prices, current feed list changed between submission and evaluation ----
+
+const (
+	kindRerank = "rerank"
+	feed3      = "CS:CCC-USD"
+	rerankIv   = int64(60)
+)
+
+// sigVals is what one validator submits (one real MsgSubmitSignalPrices) while the current feeds are [A,B]:
+// a value for signal A (= feed1) and a value for signal B (= feed2); Status stAbsent = not in the message.
+// The price alphabets of the two signals are disjoint, so a report applied to the wrong signal is visible.
+type sigVals struct {
+	A, B item
+}
+
+func (s sigVals) String() string {
+	f := func(it item) string {
+		if it.Status == stAbsent {
+			return "-"
+		}
+		return fmt.Sprintf("%s/%d", stName[it.Status], it.Price)
+	}
+	return "A=" + f(s.A) + " B=" + f(s.B)
+}
+
+func (s sigVals) json() []SigJSON {
+	out := []SigJSON{}
+	if s.A.Status != stAbsent {
+		out = append(out, SigJSON{feed1, stName[s.A.Status], s.A.Price})
+	}
+	if s.B.Status != stAbsent {
+		out = append(out, SigJSON{feed2, stName[s.B.Status], s.B.Price})
+	}
+	return out
+}
+
+func sigValsFromJSON(js []SigJSON) sigVals {
+	var s sigVals
+	for _, j := range js {
+		st := -1
+		for i, n := range stName {
+			if n == j.Status {
+				st = i
+			}
+		}
+		if st <= 0 {
+			panic(fmt.Sprintf("bad signal price %+v", j))
+		}
+		switch j.Signal {
+		case feed1:
+			s.A = item{Status: st, Price: j.Price}
+		case feed2:
+			s.B = item{Status: st, Price: j.Price}
+		default:
+			panic("bad signal " + j.Signal)
+		}
+	}
+	return s
+}
+
+var rerankAlphabet = func() []sigVals {
+	as := []item{{Status: stAbsent}, {Status: stAvailable, Price: 1}, {Status: stAvailable, Price: 2}, {Status: stUnsupported}}
+	bs := []item{{Status: stAbsent}, {Status: stAvailable, Price: 3}, {Status: stAvailable, Price: 4}, {Status: stUnsupported}}
+	var out []sigVals
+	for _, b := range bs {
+		for _, a := range as {
+			out = append(out, sigVals{a, b})
+		}
+	}
+	return out
+}()
+
+// rerankLists are the current feed lists installed (environment input, as everywhere in the world layers) in the
+// block after the submissions: order swapped, a new feed inserted in front, a feed removed.
+var rerankLists = [][]string{{feed2, feed1}, {feed3, feed1, feed2}, {feed2}}
+
+func rerankPairs(quick bool) []pair {
+	if quick {
+		return []pair{{"S0-genesis", "0.30"}, {"S3-equal", "0.666666666666666667"}}
+	}
+	return []pair{{"S0-genesis", "0.05"}, {"S0-genesis", "0.30"}, {"S0-genesis", "1"}, {"S3-equal", "0.333333333333333333"}, {"S3-equal", "0.666666666666666667"}, {"S4-whale", "0.666666666666666667"}}
+}
+
+func rerankBoundText(quick bool) string {
+	var al []string
+	for _, s := range rerankAlphabet {
+		al = append(al, s.String())
+	}
+	return fmt.Sprintf("rerank: current feeds [A=%s,B=%s] (interval %d); all triples of per-validator submissions(%d)=%v by one real MsgSubmitSignalPrices each, "+
+		"checked at the end of that block; in the next block (1 s later, no re-submission) the current feed list is replaced by each of %v (C=%s) and every feed of the new list is checked "+
+		"at the end of the block against the reports stored FOR THAT SIGNAL ID; (scenario,quorum) in %v",
+		feed1, feed2, rerankIv, len(al), al, rerankLists, feed3, rerankPairs(quick))
+}
+
+func evalRerank(w *engine.World, b *base, sv [3]sigVals) []feedCheck {
+	k := w.App.FeedsKeeper
+	c := engine.Fork(b.ctx)
+	mk := func(sigs []string) []feedstypes.Feed {
+		var fs []feedstypes.Feed
+		for _, s := range sigs {
+			fs = append(fs, feedstypes.NewFeed(s, 1, rerankIv))
+		}
+		return fs
+	}
+	specs := func(sigs []string) []feedSpec {
+		var fs []feedSpec
+		for _, s := range sigs {
+			fs = append(fs, feedSpec{s, rerankIv})
+		}
+		return fs
+	}
+	k.SetCurrentFeeds(c, mk([]string{feed1, feed2}))
+	now := c.BlockTime().Unix()
+	held := map[string][3]Entry{}
+	for _, sig := range []string{feed1, feed2, feed3} {
+		var h [3]Entry
+		for v := 0; v < 3; v++ {
+			h[v] = Entry{Status: stAbsent, Power: b.tokens[v]}
+		}
+		held[sig] = h
+	}
+	for v := 0; v < 3; v++ {
+		var sps []feedstypes.SignalPrice
+		if sv[v].A.Status != stAbsent {
+			sps = append(sps, signalPriceOf(sv[v].A, feed1))
+		}
+		if sv[v].B.Status != stAbsent {
+			sps = append(sps, signalPriceOf(sv[v].B, feed2))
+		}
+		if len(sps) == 0 {
+			continue
+		}
+		res := w.Tx(c, 0, feedstypes.NewMsgSubmitSignalPrices(bandtesting.Validators[v].ValAddress.String(), now, sps))
+		if res.OK() {
+			for _, x := range []struct {
+				sig string
+				it  item
+			}{{feed1, sv[v].A}, {feed2, sv[v].B}} {
+				if x.it.Status != stAbsent {
+					h := held[x.sig]
+					h[v] = Entry{Status: x.it.Status, Power: b.tokens[v], Price: x.it.Price, TS: now}
+					held[x.sig] = h
+				}
+			}
+		} else if b.sc.Bonded[v] && !b.sc.Inactive[v] {
+			engine.Fatal3("C06 rerank: MsgSubmitSignalPrices of bonded, active validator %d rejected: %v", v, res.Err)
+		}
+	}
+	heldOf := func(sig string) [3]Entry { return held[sig] }
+	events, halt := w.EndBlock(c)
+	out := checkFeedList(w, b, c, events, halt, specs([]string{feed1, feed2}), heldOf, now, 0)
+	if halt != "" {
+		return out
+	}
+	c, _, h := w.BeginBlock(c, 1, time.Second)
+	if h != "" {
+		engine.Fatal3("C06 rerank: BeginBlocker halted: %s", h)
+	}
+	now = c.BlockTime().Unix()
+	for i, list := range rerankLists {
+		g := engine.Fork(c)
+		k.SetCurrentFeeds(g, mk(list))
+		ev, halt := w.EndBlock(g)
+		fcs := checkFeedList(w, b, g, ev, halt, specs(list), heldOf, now, i+1)
+		for j := range fcs {
+			fcs[j].Detail = fmt.Sprintf("after the current feeds changed from [%s %s] to %v: %s", feed1, feed2, list, fcs[j].Detail)
+		}
+		out = append(out, fcs...)
 	}
 	return out
 }
